@@ -431,8 +431,13 @@ class _WrapDicts(ast.NodeTransformer):
         return node
 
 
-def compile_query(text: str, need: bool = False):
-    tree = ast.parse(text, mode="eval")
+def compile_query(text, need: bool = False):
+    if isinstance(text, ast.AST):
+        import copy
+
+        tree = ast.Expression(body=copy.deepcopy(text))
+    else:
+        tree = ast.parse(text, mode="eval")
     tree = ast.fix_missing_locations(_WrapDicts(need).visit(tree))
     return compile(tree, "<query>", "eval")
 
